@@ -812,6 +812,17 @@ def compare(case, obs, m):
         mi = _uniq([dec_str(x) for x in m["imports"]])
         if mi != _uniq(obs["imports"]):
             return f"model imports {mi} vs implementation {_uniq(obs['imports'])}"
+        # the exact text handed to exec vs the model's render (template instantiated with the slot names)
+        if m.get("source") is None:
+            if obs["sources"]:
+                return "implementation reached exec, the model stops at validation"
+        else:
+            if len(obs["sources"]) != 1:
+                return f"model reaches exec once, implementation handed {len(obs['sources'])} sources to exec"
+            if "source" in obs and obs["source"] != m["source"]:
+                a, b = dec_str(m["source"]), dec_str(obs["source"])
+                i = next((j for j in range(min(len(a), len(b))) if a[j] != b[j]), min(len(a), len(b)))
+                return f"source handed to exec differs from the model's render at offset {i}: model {a[i:i+40]!r} vs {b[i:i+40]!r}"
         return None
     return None
 
